@@ -364,6 +364,10 @@ def remove_qubit(tableau, qubit_position, measurement_determinism="probabilistic
     tableau, outcome, probabilistic = z_measurement_gate(
         tableau, qubit_position, measurement_determinism
     )
+    # the removed qubit is now in the Z eigenstate with eigenvalue (-1)^outcome: a generator that contains Z on this
+    # qubit acts on the remaining qubits with that sign
+    z_column = tableau.table[:, qubit_position + n_qubits]
+    tableau.phase = tableau.phase ^ (z_column * int(outcome))
     new_table = np.delete(
         tableau.table, [qubit_position, qubit_position + n_qubits], axis=1
     )
@@ -407,6 +411,22 @@ def remove_qubit(tableau, qubit_position, measurement_determinism="probabilistic
                     tableau.iphase,
                     omit_index,
                     row,
+                )
+                # keep destabilizer i paired with stabilizer i only: multiplying destabilizer omit_index into
+                # destabilizer row requires multiplying stabilizer row into stabilizer omit_index, which thereby
+                # becomes the Z operator of the removed qubit
+                (
+                    tableau.table_x,
+                    tableau.table_z,
+                    tableau.phase,
+                    tableau.iphase,
+                ) = row_sum(
+                    tableau.table_x,
+                    tableau.table_z,
+                    tableau.phase,
+                    tableau.iphase,
+                    row + n_qubits,
+                    omit_index + n_qubits,
                 )
             # remove columns and then rows
             new_table = np.delete(
